@@ -103,6 +103,17 @@ def gen(rng, tier):
         d = dict(c["def"])
         own_lit = [(k, e) for k, e in d["values"] if not k.startswith("seen_")]
         cases.append(dict(c, **{"def": {"imports": d["imports"], "values": own_lit}}))
+    # the cut of C01-assoc travelling through a reference (C01g_hidden_cut) and variations: the middle value is a
+    # scalar / null / array / unknown-by-dangling-reference, the alias is direct or nested, the order of the imports varies
+    for mid in (("num", "5"), ("null",), ("arr", [("num", "1")]), ("str", "s"), ("obj", [("z", ("num", "1"))])):
+        for alias in (("sym", [("name", "y")]), ("obj", [("w", ("sym", [("name", "y")]))])):
+            for order in (["G", "E"], ["E", "G"]):
+                for e_imports in ([("F", True)], []):
+                    envs = {"F": {"imports": [], "values": [("y", mid)]},
+                            "E": {"imports": e_imports, "values": [("y", ("obj", [("c", ("num", "3"))])), ("x", alias)]},
+                            "G": {"imports": [], "values": [("x", ("obj", [("b", ("num", "2")), ("w", ("obj", [("b", ("num", "2"))]))]))]},
+                            "D": {"imports": [(m, True) for m in order], "values": []}}
+                    cases.append(G.case_from_graph(envs, "D"))
     # random graphs
     ngraphs = 1500 if thorough else 220
     for _ in range(ngraphs):
